@@ -60,6 +60,8 @@ def configs(tier, seed):
             slow = (k == 1 and fixed != ("dy", "0")) or k == 4 or (k == 5 and fixed[0] == "dy") or k >= 6
             if tier == "quick" and slow:
                 continue
+            if (k, fixed) in ((1, ("dy", "1/3")), (1, ("dx", "1/2")), (4, ("dx", "1/2")), (8, ("dx", "1/2"))):
+                continue  # did not finish within 40 minutes (hundreds of clamping regions, each a full re-execution): not claimed
             cfgs.append(dict(name=f"pair{k} translated, {fixed[0]}={fixed[1]}", fixed=list(fixed), **base))
     # a segment that passes through an interior vertex of a polyline for every value of the translation: the crossing is
     # found from both adjacent pieces and must still be reported once
